@@ -41,6 +41,7 @@ class Executor(Base, ExprMixin, StmtMixin, CallMixin, StrMixin, SpecMixin):
         self.heap = {}
         self.modstack = []
         self.objstate = {}
+        self.loop_depth = 0
 
     def sym_comprehension(self, *a):
         return self.unit.sym_comprehension(self, *a)
@@ -262,7 +263,7 @@ class Unit:
         """[f(x) for x in xs] over a symbolic list: a fresh list tied to its definition by a
         quantified hypothesis (no filter allowed)."""
         if g.ifs:
-            raise GenError("filtered comprehension over symbolic list")
+            return self.sym_filter(ex, n, g, it)
         envs = ex.snapshot_envs()
         it_c = it.copy()
         # determine element kind by evaluating the element expression once at a fresh index
@@ -288,6 +289,29 @@ class Unit:
         arr = out.arr
         ex.hyps.append(FAll("k", 0, it.length,
                             lambda c: FT(z3.Select(arr, c) == ex.z(elem(c))), "comprehension"))
+        return out
+
+    def sym_filter(self, ex, n, g, it: VList):
+        """[x for x in xs if c(x)]: a fresh list, no longer than xs, all of whose elements satisfy c
+        (weak but sound model: order/multiplicity are not tracked)."""
+        if not (isinstance(n.elt, ast.Name) and isinstance(g.target, ast.Name) and n.elt.id == g.target.id):
+            raise GenError("filtered comprehension with a mapped element over a symbolic list")
+        envs = ex.snapshot_envs()
+        ek = it.elem if isinstance(it.elem, str) else "tuple[%s]" % ",".join(it.elem)
+        out = ex.fresh("list[%s]" % ek, "filtered")
+        ex.pc.append(z3.And(ex.z(out.length) >= 0, ex.z(out.length) <= ex.z(it.length)))
+        out_c = out.copy()
+
+        def cond(c):
+            def run():
+                ex.envs.append({g.target.id: ex.list_get(out_c, c)})
+                try:
+                    ts = [ex.b(ex.truth(ex.eval(cn))) for cn in g.ifs]
+                    return FT(z3.And(*ts))
+                finally:
+                    ex.envs.pop()
+            return ex.with_envs(list(envs), run)
+        ex.hyps.append(FAll("k", 0, out.length, cond, "filter"))
         return out
 
     def eval_default(self, ex, dnode):
@@ -373,6 +397,7 @@ class Unit:
             k = self.call_ordinal(name, node)
             if k is not None:
                 site_clauses.update(self.contract.at_call.get("%s#%d" % (name, k), {}))
+        ex.cur_call = bound
         for label, cl in site_clauses.items():
             cl = self.contract.clause(cl)
             f = ex.spec_eval(cl.expr, extra_env={"arg": _Ns(bound), **{"arg_" + k: v for k, v in bound.items()}})
@@ -412,6 +437,9 @@ class Unit:
                 continue
             if isinstance(a, VUnique):
                 zs.append(z3.Const("uniq!%s" % a.tag, Ref))
+                continue
+            if isinstance(a, (dict, list)) and not a:
+                zs.append(z3.Const("empty!%s" % type(a).__name__, Ref))
                 continue
             if isinstance(a, VOpt) and (isinstance(a.val, Sym) or is_const(a.val)) and not ex.feasible(a.is_none):
                 zs.append(ex.z(a.val))
